@@ -21,6 +21,7 @@ import (
 	atypes "github.com/artela-network/aspect-core/types"
 	"github.com/ethereum/go-ethereum/common"
 	"github.com/ethereum/go-ethereum/core/state"
+	"github.com/ethereum/go-ethereum/crypto"
 	upvm "github.com/ethereum/go-ethereum/core/vm"
 	uptracers "github.com/ethereum/go-ethereum/eth/tracers"
 	uplogger "github.com/ethereum/go-ethereum/eth/tracers/logger"
@@ -90,7 +91,10 @@ var stdOps = []byte{0x01, 0x02, 0x03, 0x04, 0x05, 0x06, 0x07, 0x08, 0x09, 0x0a, 
 
 // randomCode: mostly stack-balanced snippets from the standard opcode set with small pushed operands, plus raw bytes
 func randomCode(r *Rng, n int, targets []common.Address) []byte {
-	a := &Asm{}
+	return randomCodeFrom(&Asm{}, r, n, targets)
+}
+
+func randomCodeFrom(a *Asm, r *Rng, n int, targets []common.Address) []byte {
 	for i := 0; i < n; i++ {
 		switch k := r.Intn(100); {
 		case k < 30: // push small values then a binary/unary op
@@ -165,6 +169,48 @@ func randomCode(r *Rng, n int, targets []common.Address) []byte {
 	return a.Bytes()
 }
 
+// createThenTouch: a creation at the start of the root contract (nonce 0, so the new address is known) whose init code succeeds,
+// reverts, hits an invalid opcode, underflows, or returns 0xEF code, possibly onto an occupied address, followed by accesses to the
+// would-be address — what EIP-2929 charges for those depends on whether the address stayed warm.
+func createThenTouch(r *Rng, c *diffCase, a *Asm) {
+	inits := [][]byte{
+		{opPUSH1, 1, opPUSH1, 0, opRETURN},
+		{opPUSH1, 0, opPUSH1, 0, opREVERT},
+		{opINVALID},
+		{opPOP},
+		{opPUSH1, 0xef, opPUSH1, 0, 0x53, opPUSH1, 1, opPUSH1, 0, opRETURN},
+		{opPUSH1, 1, opPUSH1, 1, opSSTORE, opPUSH1, 0, opPUSH1, 0, opREVERT},
+	}
+	init := inits[r.Intn(len(inits))]
+	for j, b := range init {
+		a.Op(opPUSH1, b).PushU(uint64(j)).Op(0x53)
+	}
+	var derived common.Address
+	if r.Bool() {
+		salt := uint64(r.Intn(3))
+		a.PushU(salt).PushU(uint64(len(init))).PushU(0).PushU(0).Op(opCREATE2, opPOP)
+		derived = crypto.CreateAddress2(c.root, common.BigToHash(new(big.Int).SetUint64(salt)), crypto.Keccak256(init))
+	} else {
+		a.PushU(uint64(len(init))).PushU(0).PushU(0).Op(opCREATE, opPOP)
+		derived = crypto.CreateAddress(c.root, 0)
+	}
+	if r.Chance(20) {
+		c.codes[derived] = []byte{opSTOP} // occupied: the creation collides
+	}
+	for k := 1 + r.Intn(2); k > 0; k-- {
+		switch r.Intn(4) {
+		case 0:
+			a.PushBytes(derived[:]).Op(0x31, opPOP)
+		case 1:
+			a.PushBytes(derived[:]).Op(0x3b, opPOP)
+		case 2:
+			a.PushBytes(derived[:]).Op(0x3f, opPOP)
+		default:
+			a.PushU(0).PushU(0).PushU(0).PushU(0).PushU(0).PushBytes(derived[:]).Op(opGAS, opCALL, opPOP)
+		}
+	}
+}
+
 type diffCase struct {
 	fork     string
 	codes    map[common.Address][]byte
@@ -230,7 +276,7 @@ func runFork(c *diffCase, gas uint64, withTracer bool) runOut {
 	for _, l := range sdb.Logs() {
 		logs = append(logs, fmt.Sprintf("%x/%x/%x", l.Address, l.Topics, l.Data))
 	}
-	return runOut{fmt.Sprintf("ret=%x left=%d err=%v created=%x refund=%d root=%x logs=%v", ret, left, err, created, sdb.GetRefund(), sdb.IntermediateRoot(true), logs), rec.lines}
+	return runOut{fmt.Sprintf("ret=%x left=%d err=%v created=%x refund=%d root=%x logs=%v eips=%v", ret, left, err, created, sdb.GetRefund(), sdb.IntermediateRoot(true), logs, env.evm.Config.ExtraEips), rec.lines}
 }
 
 func runUpstream(c *diffCase, gas uint64, withTracer bool) runOut {
@@ -283,7 +329,7 @@ func runUpstream(c *diffCase, gas uint64, withTracer bool) runOut {
 	for _, l := range sdb.Logs() {
 		logs = append(logs, fmt.Sprintf("%x/%x/%x", l.Address, l.Topics, l.Data))
 	}
-	return runOut{fmt.Sprintf("ret=%x left=%d err=%v created=%x refund=%d root=%x logs=%v", ret, left, err, created, sdb.GetRefund(), sdb.IntermediateRoot(true), logs), rec.lines}
+	return runOut{fmt.Sprintf("ret=%x left=%d err=%v created=%x refund=%d root=%x logs=%v eips=%v", ret, left, err, created, sdb.GetRefund(), sdb.IntermediateRoot(true), logs, evm.Config.ExtraEips), rec.lines}
 }
 
 func firstDiff(a, b []string) string {
@@ -392,7 +438,17 @@ func runStructLoggerPair(c *diffCase, gas uint64) string {
 	a, _ := json.Marshal(fl.StructLogs())
 	b, _ := json.Marshal(ul.StructLogs())
 	if !bytes.Equal(a, b) || !bytes.Equal(fl.Output(), ul.Output()) {
-		return "differs:structLogger"
+		fs, us := fl.StructLogs(), ul.StructLogs()
+		for i := 0; i < len(fs) && i < len(us); i++ {
+			x, _ := json.Marshal(fs[i])
+			y, _ := json.Marshal(us[i])
+			if !bytes.Equal(x, y) {
+				// the entry's scalar fields are enough to identify the difference
+				return strings.ReplaceAll(fmt.Sprintf("differs:structLogger:entry_%d:fork=pc=%d,op=%s,gas=%d,cost=%d,depth=%d,err=%v|upstream=pc=%d,op=%s,gas=%d,cost=%d,depth=%d,err=%v",
+					i, fs[i].Pc, fs[i].Op.String(), fs[i].Gas, fs[i].GasCost, fs[i].Depth, fs[i].Err, us[i].Pc, us[i].Op.String(), us[i].Gas, us[i].GasCost, us[i].Depth, us[i].Err), " ", "_")
+			}
+		}
+		return fmt.Sprintf("differs:structLogger:entries_fork=%d_upstream=%d_output_fork=%x_upstream=%x", len(fs), len(us), fl.Output(), ul.Output())
 	}
 	return "same"
 }
@@ -415,10 +471,15 @@ func driveDiff(seed uint64, n int, size int, em *Emitter) {
 			addrs = append(addrs, common.BytesToAddress([]byte{0xc0, 0, byte(k)}))
 		}
 		targets := append(append([]common.Address{}, addrs...), common.BytesToAddress([]byte{byte(1 + r.Intn(9))}), common.BytesToAddress([]byte{0xd9}))
-		for _, a := range addrs {
-			c.codes[a] = randomCode(r, 3+r.Intn(size+10), targets)
-		}
 		c.root = addrs[0]
+		for k, a := range addrs {
+			pre := &Asm{}
+			if k == 0 && r.Chance(30) {
+				createThenTouch(r, c, pre)
+				em.Count("diff:create-then-touch")
+			}
+			c.codes[a] = randomCodeFrom(pre, r, 3+r.Intn(size+10), targets)
+		}
 		c.input = r.Bytes([]int{0, 4, 36, 100}[r.Intn(4)])
 		c.create = r.Chance(10)
 		gas := uint64(3_000_000)
